@@ -3,6 +3,7 @@
 package olric
 
 import (
+	"encoding/hex"
 	"sort"
 
 	"github.com/olric-data/olric/internal/cluster/balancer"
@@ -46,3 +47,29 @@ func (cl *ClusterClient) VerifResetConns() {
 		cl.client.Get(addr)
 	}
 }
+
+// VerifLockToken extracts the token of a lock context (embedded or cluster).
+func VerifLockToken(lc LockContext) []byte {
+	switch l := lc.(type) {
+	case *EmbeddedLockContext:
+		return append([]byte{}, l.token...)
+	case *ClusterLockContext:
+		b, _ := hex.DecodeString(l.token)
+		return b
+	}
+	return nil
+}
+
+// VerifNewLockContext builds a lock context carrying an arbitrary token (stale / forged tokens).
+func VerifNewLockContext(d DMap, key string, token []byte) LockContext {
+	switch dm := d.(type) {
+	case *EmbeddedDMap:
+		return &EmbeddedLockContext{key: key, token: token, dm: dm}
+	case *ClusterDMap:
+		return &ClusterLockContext{key: key, token: hex.EncodeToString(token), dm: dm}
+	}
+	return nil
+}
+
+// VerifResponseEmpty reports whether a GetResponse carries no entry.
+func VerifResponseEmpty(r *GetResponse) bool { return r == nil || r.entry == nil }
